@@ -368,6 +368,9 @@ class FuncAnalysis:
         self.origin_of = {}
         self.deps = set()
         self.calls = []
+        self.call_info = {}
+        self.stmt_direct = {}
+        self.cur_stmt = None
         self.all_w = any(f == func.short and h == "*" for (f, h, k) in
                          prog.whitelist)
         self._scalars = None
@@ -409,6 +412,9 @@ class FuncAnalysis:
             before = dict(self.env)
             self.sites = []
             self.direct = []
+            self.call_info = {}     # id(call node) -> [(callee, amap, effs)]
+            self.stmt_direct = {}   # id(statement) -> {direct effects}
+            self.cur_stmt = None
             self.block(self.func.node.body)
             if before == self.env:
                 break
@@ -538,6 +544,9 @@ class FuncAnalysis:
                 if org is None:
                     org = self.origin(node, kind)
                 self.direct.append((eff, org))
+                if self.cur_stmt is not None:
+                    self.stmt_direct.setdefault(id(self.cur_stmt),
+                                                set()).add(eff)
 
     # ------------------------------------------------------------ statements
     def block(self, body):
@@ -545,6 +554,14 @@ class FuncAnalysis:
             self.stmt(st)
 
     def stmt(self, st):
+        outer = self.cur_stmt
+        self.cur_stmt = st
+        try:
+            self._stmt(st)
+        finally:
+            self.cur_stmt = outer
+
+    def _stmt(self, st):
         if isinstance(st, ast.Expr):
             self.ev(st.value)
         elif isinstance(st, ast.Assign):
@@ -1436,10 +1453,13 @@ class FuncAnalysis:
         self.deps.add(callee)
         memo = self.prog.memo
         ver = summ.version
+        rec = [] if self.prog.recording else None
         for r, hd in summ.groups().items():
             if r == "glob":
                 for (h, d, w) in hd:
                     self.effects.add((r, h, d, w or self.all_w))
+                    if rec is not None:
+                        rec.append((r, h, d, w or self.all_w))
                 continue
             for loc in amap.get(r, EMPTY):
                 key = (callee, ver, r, loc)
@@ -1456,6 +1476,12 @@ class FuncAnalysis:
                         mapped = frozenset((a, b, c, True)
                                            for (a, b, c, w) in mapped)
                     self.effects |= mapped
+                    if rec is not None:
+                        rec.extend(mapped)
+        if rec is not None:
+            # per call node: (callee, argument map, effects in this frame)
+            self.call_info.setdefault(id(node), []).append(
+                (callee, amap, frozenset(rec)))
         if self.prog.recording and summ.effects:
             self.calls.append((callee, amap, self.site_text(node)))
         if not want_ret:
